@@ -88,7 +88,7 @@ func (v *Vue) interpolateToWriter(ctx VueContext, w io.Writer, input string) err
 				// Not a variable path: a literal, a unary expression (!a, -n) or
 				// operators written without blanks (a+b) are expressions too.
 				if !helpers.IsVariablePath(expr) {
-					if result, evalErr := v.exprEval.Eval(expr, ctx.stack.EnvMap()); evalErr == nil {
+					if result, evalErr := v.exprEval.Eval(expr, v.exprEnv(ctx)); evalErr == nil {
 						val = result
 					}
 				}
